@@ -420,7 +420,8 @@ def check_layout_run(ctx: Ctx, inp: dict, judge: bool = True) -> None:
             ctx.spec_fail("layout:finite", inp, {"module": m.name, "pos": [px, py]}, size=n)
         elif not (r - tol <= px <= W - r + tol and r - tol <= py <= H - r + tol):
             ctx.spec_fail("layout:disc-inside-die", inp, {"module": m.name, "pos": [px, py], "radius": r, "die": [W, H],
-                                                          "delta_region_calls": p.delta_hits}, size=n)
+                                                          "delta_region_calls": p.delta_hits}, size=n,
+                          finding="C14-delta-escape" if p.delta_hits > 0 else None)
 
 
 def check_sld(ctx: Ctx, inp: dict) -> None:
